@@ -1,4 +1,5 @@
 import SJ.Proofs.Tables
+import SJ.Proofs.ParseIff
 import SJ.Proofs.TrimEdgeAscii
 import SJ.Proofs.Number
 import SJ.Proofs.BlockScan
@@ -108,5 +109,25 @@ open SJ.TrimEdge in
     trims to `{…}` or `[…]`, whatever it contains. Only inputs with non-JSON (Unicode, VT, FF) white space at the very
     edges are outside. -/
 theorem C01_edge (input : Bytes) (h : PlainTrimEnds input) : EdgeOK input := edgeOK_of_trimEnds input h
+
+
+open SJ.TrimEdge SJ.ParseDefs in
+/-- **Parse accepts exactly the JSON grammar.** For every input whose edges carry only JSON white space (`EdgeOK`,
+    see `C01_edge`) and which is shorter than 2^50 bytes, and whose text the specification does not declare outside
+    the claim (ill-formed surrogate escapes, non-UTF-8 bytes inside strings): the model of `Parse` — `bytes.TrimSpace`,
+    the stage-1 scanner, the index buffers with their strip rule and peek values, the stage-2 machine with
+    `parseNumber`, the atom validators and the string decoder — returns a result **iff** the text, ignoring leading and
+    trailing white space, is a JSON text per RFC 8259 whose top-level value is an object or array and whose number
+    literals are finite as float64 (`Spec.containerText`). -/
+theorem C01_parse_iff (cfg : Cfg) (input : Bytes) (he : EdgeOK input) (hsz : SizeOK (trimSpace input))
+    (hin : Spec.containerText (jsonTrim input).toList ≠ .outside) :
+    (∃ pj, parse cfg input = .ok pj) ↔ ∃ v, Spec.containerText (jsonTrim input).toList = .accept v :=
+  SJ.ParseIff.parse_iff cfg input he hsz hin
+
+open SJ.TrimEdge SJ.ParseDefs in
+/-- every other input returns an error and no result -/
+theorem C01_parse_rejects (cfg : Cfg) (input : Bytes) (he : EdgeOK input) (hsz : SizeOK (trimSpace input))
+    (h : Spec.containerText (jsonTrim input).toList = .reject) : parse cfg input = .error .generic :=
+  SJ.ParseIff.parse_rejects cfg input he hsz h
 
 end SJ.Properties.C01
